@@ -78,14 +78,124 @@ def string_seed(text: str):
     return None
 
 
-class Roles:
-    """Role inference for the expressions of one function."""
+# ------------------------------------------------------------------------------------------------
+# generic, name-independent helpers shared by rules/c04.py and rules/c16.py
+# ------------------------------------------------------------------------------------------------
 
-    def __init__(self, ctx, f):
+def split_literals(test: ast.AST, pol: bool, out: list):
+    """`test` holds with polarity `pol`: append its conjunct literals (expr, polarity) to `out`.  Negations are pushed through
+    not/and/or (De Morgan); a remaining disjunction stays one (BoolOp, polarity) literal that no recogniser will match."""
+    if isinstance(test, ast.UnaryOp) and isinstance(test.op, ast.Not):
+        return split_literals(test.operand, not pol, out)
+    if isinstance(test, ast.BoolOp) and (isinstance(test.op, ast.And) == pol):
+        for x in test.values:
+            split_literals(x, pol, out)
+        return
+    out.append((test, pol))
+
+
+def _reach_forward(cfg, a, b) -> bool:
+    """b reachable from a without taking a loop back edge (i.e. within the same iteration)."""
+    seen = {a}
+    stack = [a]
+    while stack:
+        n = stack.pop()
+        if n is b:
+            return True
+        for s in cfg.g.successors(n):
+            if "back" in cfg.g[n][s]["labels"] or s in seen:
+                continue
+            seen.add(s)
+            stack.append(s)
+    return False
+
+
+def branch_reaching(cfg, g: ast.stmt, st: ast.stmt):
+    """Which outcome of the test of `g` (If/While) leads to `st` inside one iteration: True / False / None (both or neither)."""
+    def out(label):
+        return [x for x in cfg.successors(g, label) if "back" not in cfg.g[g][x]["labels"]]
+    t = any(_reach_forward(cfg, x, st) for x in out("true"))
+    f = any(_reach_forward(cfg, x, st) for x in out("false"))
+    if t == f:
+        return None
+    return t
+
+
+def path_literals(cfg, st: ast.stmt, expr: Optional[ast.AST] = None):
+    """Conjunction of test literals [(expr, polarity)] that hold whenever statement `st` (and, if given, the sub-expression `expr`
+    of it, which may sit in one arm of conditional expressions) is evaluated: dominating if/while tests with the outcome that
+    leads here - early returns, `continue` guards and nested ifs all reduce to this - plus enclosing `a if t else b` tests."""
+    out: list = []
+    for g in cfg.dominators(st):
+        if g is st or not isinstance(g, (ast.If, ast.While)):
+            continue
+        pol = branch_reaching(cfg, g, st)
+        if pol is None:
+            continue
+        split_literals(g.test, pol, out)
+    n = expr
+    while n is not None and n is not st:
+        p = parent(n)
+        if isinstance(p, ast.IfExp) and n is not p.test:
+            split_literals(p.test, n is p.body, out)
+        n = p
+    return out
+
+
+def bind_args(call: ast.Call, g) -> Optional[Dict[str, ast.AST]]:
+    """parameter name -> argument expression for a call of repository function `g` (defaults included); None for */** forwarding."""
+    if any(isinstance(a, ast.Starred) for a in call.args) or any(k.arg is None for k in call.keywords):
+        return None
+    params = list(g.params)
+    if g.cls is not None and not g.is_static and params and not (isinstance(call.func, ast.Attribute) and isinstance(call.func.value, ast.Name)
+                                                                  and call.func.value.id == g.cls.name):
+        params = params[1:]
+    binding: Dict[str, ast.AST] = {}
+    for i, a in enumerate(call.args):
+        if i < len(params):
+            binding[params[i]] = a
+    for k in call.keywords:
+        binding[k.arg] = k.value
+    a = g.node.args
+    pos = [x.arg for x in a.posonlyargs + a.args]
+    for i, dflt in enumerate(a.defaults):
+        binding.setdefault(pos[len(pos) - len(a.defaults) + i], dflt)
+    for x, dflt in zip(a.kwonlyargs, a.kw_defaults):
+        if dflt is not None:
+            binding.setdefault(x.arg, dflt)
+    return binding
+
+
+def private_helper(ctx, f, call: ast.Call):
+    """The single repository function a call resolves to when it is a helper of the calling code: a nested def, a function of the
+    same module or a method of the same class hierarchy reached through self/cls/the class name.  None otherwise."""
+    try:
+        targets, how = ctx.cg.resolve_call(f, call)
+    except Exception:
+        return None
+    if len(targets) != 1 or how not in ("local-def", "module", "qualified", "dispatch"):
+        return None
+    g = targets[0]
+    if g is f or g.module is not f.module:
+        return None
+    if how == "dispatch":
+        recv = call.func.value if isinstance(call.func, ast.Attribute) else None
+        if not (isinstance(recv, ast.Name) and recv.id == (f.self_name or "")):
+            return None
+    return g
+
+
+class Roles:
+    """Role inference for the expressions of one function.  `param_roles` carries the roles of the arguments when the function is
+    analysed as a helper of a typed caller (the roles the parameter names declare are joined with them)."""
+
+    def __init__(self, ctx, f, param_roles: Optional[dict] = None, depth: int = 0):
         self.ctx = ctx
         self.f = f
         self.rd = ctx.rd(f)
         self.params = set(f.params)
+        self.param_roles = dict(param_roles or {})
+        self.depth = depth
         self._memo: Dict = {}
         self._busy = set()
         # flow-insensitive container growth: name -> [appended expr]
@@ -162,6 +272,10 @@ class Roles:
     def _name(self, n: ast.Name, env):
         if n.id in env:
             return env[n.id]
+        if n.id in self.params and n.id in self.param_roles:
+            # helper analysed under a typed call: the argument's role joined with what the parameter's name declares
+            if all(isinstance(d, ast.arguments) for d in self.rd.defs_reaching(n)):
+                return join(seed_of(n.id), self.param_roles[n.id])
         if n.id in self.params and seed_of(n.id) is not None:
             return seed_of(n.id)            # a parameter keeps the role its name declares (e.g. target_nodes = source_nodes default)
         defs = self.rd.defs_reaching(n)
@@ -171,7 +285,7 @@ class Roles:
         empty_container = False
         for d in defs:
             if isinstance(d, ast.arguments):
-                rs.append(seed_of(n.id))
+                rs.append(join(seed_of(n.id), self.param_roles.get(n.id)))
             elif isinstance(d, ast.Assign):
                 got = None
                 for t in d.targets:
@@ -294,4 +408,37 @@ class Roles:
             return self.role(recv, env)
         if cn in PRESERVE_FUNCS and c.args and (recv is None or recv_is_module or recv_is_self):
             return self.role(c.args[0], env)
-        return None
+        return self._helper_return(c, env)
+
+    # ---- look through extracted helpers -------------------------------------------------------
+    def helper_roles(self, c: ast.Call, env=None):
+        """(helper FunctionInfo, {parameter: role}) when `c` calls a private helper of this function with at least one typed
+        argument; None otherwise."""
+        if self.depth >= 2:
+            return None
+        g = private_helper(self.ctx, self.f, c)
+        if g is None:
+            return None
+        binding = bind_args(c, g)
+        if binding is None:
+            return None
+        proles = {}
+        for p, a in binding.items():
+            r = self.role(a, env)
+            if r is not None:
+                proles[p] = r
+        if not any(r in (SRC, TGT, WGT, MIX) or isinstance(r, tuple) for r in proles.values()):
+            return None
+        return g, proles
+
+    def _helper_return(self, c: ast.Call, env):
+        hr = self.helper_roles(c, env)
+        if hr is None:
+            return None
+        g, proles = hr
+        sub = Roles(self.ctx, g, proles, self.depth + 1)
+        rets = [s.value for s in walk_shallow(g.node) if isinstance(s, ast.Return) and s.value is not None]
+        if not rets:
+            return None
+        r = join(*[sub.role(v) for v in rets])
+        return None if r == MIX else r
